@@ -26,7 +26,9 @@ func ExtractClone(c *Ctx) (*Sibling, error) {
 	for _, tn := range s.Order {
 		cs := s.Cases[tn]
 		x := &cloneX{c: c, n: cs.NObj}
+		c.ComputeSubst(cs.Clause.Body, nil)
 		x.stmts(cs.Clause.Body, gctx{})
+		c.Subst = nil
 		cs.Events = x.evs
 	}
 	return s, nil
@@ -157,13 +159,19 @@ func (x *cloneX) conversion(e ast.Expr) (Event, ast.Expr, bool) {
 
 func (x *cloneX) assign(s *ast.AssignStmt, g gctx) {
 	c := x.c
+	if len(s.Lhs) == len(s.Rhs) && len(s.Lhs) > 1 {
+		for i := range s.Lhs {
+			x.assign(&ast.AssignStmt{Lhs: []ast.Expr{s.Lhs[i]}, TokPos: s.TokPos, Tok: s.Tok, Rhs: []ast.Expr{s.Rhs[i]}}, g)
+		}
+		return
+	}
 	if len(s.Lhs) != 1 || len(s.Rhs) != 1 {
 		x.other(s, g)
 		return
 	}
 	lhs, rhs := s.Lhs[0], s.Rhs[0]
 	if s.Tok == token.DEFINE {
-		if id, ok := lhs.(*ast.Ident); ok && id.Name == "out" {
+		if id, ok := lhs.(*ast.Ident); ok && x.out == nil {
 			if tn, ok := c.allocOf(rhs); ok {
 				x.out = c.Info.Defs[id]
 				x.emit(Event{Kind: KAlloc, Field: tn}, g, s.Pos())
@@ -307,7 +315,25 @@ func ExtractListing(c *Ctx) (*Sibling, error) {
 	for _, tn := range s.Order {
 		cs := s.Cases[tn]
 		var evs []Event
+		c.ComputeSubst(cs.Clause.Body, nil)
+		var body []ast.Stmt
 		for _, st := range cs.Clause.Body {
+			if as, ok := st.(*ast.AssignStmt); ok && as.Tok == token.ASSIGN && len(as.Lhs) == len(as.Rhs) && len(as.Lhs) > 1 {
+				for i := range as.Lhs {
+					body = append(body, &ast.AssignStmt{Lhs: []ast.Expr{as.Lhs[i]}, TokPos: as.TokPos, Tok: as.Tok, Rhs: []ast.Expr{as.Rhs[i]}})
+				}
+				continue
+			}
+			if as, ok := st.(*ast.AssignStmt); ok && as.Tok == token.DEFINE && len(as.Lhs) == 1 {
+				if id, ok := as.Lhs[0].(*ast.Ident); ok {
+					if _, inlined := c.Subst[c.Info.Defs[id]]; inlined {
+						continue // an alias local that is seen through
+					}
+				}
+			}
+			body = append(body, st)
+		}
+		for _, st := range body {
 			ev := Event{Kind: KOpaque, Pos: st.Pos(), Expr: c.ExprStr(stmtExpr(st))}
 			if as, ok := st.(*ast.AssignStmt); ok && as.Tok == token.ASSIGN && len(as.Lhs) == 1 && len(as.Rhs) == 1 {
 				if id, ok := as.Lhs[0].(*ast.Ident); ok {
@@ -341,6 +367,7 @@ func ExtractListing(c *Ctx) (*Sibling, error) {
 			}
 			evs = append(evs, ev)
 		}
+		c.Subst = nil
 		cs.Events = evs
 	}
 	return s, nil
